@@ -13,6 +13,8 @@ def run(P, R, L):
     K.acc1(P, R, L)
     R.clause("ROLE-4", "sequence and file-number counters survive reopen (a reused sequence number would shadow newer writes)")
     K.role4_counters(P, R, L)
+    K.grd13_find_file_compares_internal_keys(P, R, L)
+    R.clause("GRD-13", "the level>=1 file search orders by the full internal key")
     R.clause("GRD-10", "file key ranges are closed intervals: every user-key vs file-bound comparison in the crate puts the boundary key inside")
     K.grd10_closed_intervals(P, R, L)
     R.clause("GRD-3", "lookup key carries the sequence captured under the mutex")
